@@ -332,6 +332,25 @@ def check_other_kex(st):
             judge_plain_rsa(bits, ['rsa-sha2-256'], res, 'text', wire.serialize(tree), st, 'kexpath')
 
 
+# ---- two audits in flight on two worker threads: every placement of one (quick) or two (thorough) thread switches at the receives
+CONC_ARCHS = ['CERTSMALLCA', 'CERTBIGCA', 'RSA1024', 'RSA4096', 'CLEAN', 'GEX2048OPENSSH']
+
+
+def work_concurrent(chunk, st):
+    from props import c07
+    for case in chunk:
+        c07.explore_case(case, st)
+
+
+def concurrent_cases(tier):
+    import itertools
+    out = []
+    for a, b in itertools.permutations(CONC_ARCHS, 2):
+        for fmt in ('text', 'json'):
+            out.append(((a, b), 2, fmt, False, 1 if tier == 'quick' else 2, ('recv',), 2000))
+    return out
+
+
 def run(tier, seed):
     t0 = time.time()
     st = evidence.Stats()
@@ -348,6 +367,7 @@ def run(tier, seed):
     check_fixed(st)
     par.pmap(work_cert, cert_cases(), stats=st)
     par.pmap(work_multi, multi_cases(), stats=st)
+    par.pmap(work_concurrent, concurrent_cases(tier), stats=st, chunk=1)
     check_other_kex(st)
     vcases = []
     for bits in H.pick(sizes, seed, 10 if tier == 'quick' else 60):
